@@ -41,6 +41,16 @@ type TxOpts struct {
 
 func (w *World) TxConfig() client.TxConfig { return w.Enc.TxConfig }
 
+// DefaultGas is the gas limit an honest client declares when the caller does
+// not choose one: 3M, or the block gas limit if that is lower.
+func (w *World) DefaultGas() uint64 {
+	g := uint64(3_000_000)
+	if mg := w.Cfg.BlockMaxGas; mg > 0 && int64(g) > mg {
+		g = uint64(mg)
+	}
+	return g
+}
+
 // GasPriceNow returns a price that passes both the min-gas-price and the base
 // fee check in the open block.
 func (w *World) GasPriceNow() *big.Int {
@@ -71,10 +81,7 @@ func (w *World) AccountNumSeq(addr sdk.AccAddress) (uint64, uint64, bool) {
 // data when opts.EIP712) and returns the encoded transaction.
 func (w *World) BuildCosmosTx(a *Account, o TxOpts, msgs ...sdk.Msg) ([]byte, error) {
 	if o.Gas == 0 {
-		o.Gas = 3_000_000
-		if mg := w.Cfg.BlockMaxGas; mg > 0 && int64(o.Gas) > mg {
-			o.Gas = uint64(mg)
-		}
+		o.Gas = w.DefaultGas()
 	}
 	price := o.GasPrice
 	if price == nil {
